@@ -1,5 +1,10 @@
 """C04 — containment and CIDR matching are exactly interval inclusion.
-Ops: contains own|mixin <y> <x> ; match_all / match_small / match_large <ip> [cands]"""
+Ops: contains own|mixin <y> <x> ; match_all / match_small / match_large <ip> [cands]
+Raw ops (the model coerces the non-object operand itself, Model/Coerce.lean):
+     contains_raw <y> <item> ; match_raw all|small|large <item> [item,...]
+     item = S:<hex of utf-8> | I:<int> | A:ver:val | N:ver:val:plen | R:ver:lo:hi
+contains forms: obj | str (as before, converted by the real code) | rstr (the string reaches the model: address text,
+CIDR text, netmask / hostmask text) | rint (a bare int operand) | rcidr (a CIDR string against a range container)"""
 import ipaddress
 from common import Case, W, rand_value, rand_block, errname, plist, tf
 import common
@@ -13,7 +18,10 @@ RULE = ('contains: container y (network with any host bits and prefix, range, gl
         'address, off by one on either side, nested, supernet, sibling, other family, bottom/top of the space; own '
         '__contains__ and IPListMixin.__contains__. match_*: address and 0-8 candidates (networks with host bits, '
         'addresses, strings) clustered round the address: nested chains, duplicates, disjoint, overlapping, mixed '
-        'version, shuffled. non-trivial = distinct case whose implementation output is not an error')
+        'version, shuffled; ~30% of the string-operand cases reach the model uncoerced (contains_raw / match_raw) with '
+        'netmask / hostmask spellings, plus bare-int operands and CIDR strings against range containers (outside the '
+        "property's operand list: the oracle only requires that an answer, if given, is interval inclusion). "
+        'non-trivial = distinct case whose implementation output is not an error')
 
 
 # ------------------------------------------------------------------ independent integer helpers
@@ -89,16 +97,46 @@ def _mk(o):
     raise ValueError(o)
 
 
-def _xstr(o):
-    """string form of an address / network operand"""
+def _xstr(o, style=0):
+    """string form of an address / network operand (style 1: netmask text, 2: hostmask text where unambiguous)"""
     if o[0] == 'A':
         return _astr(o[1], o[2])
+    w = W[o[1]]
+    host = (1 << (w - o[3])) - 1
+    if style == 1:
+        return '%s/%s' % (_astr(o[1], o[2]), _astr(o[1], ((1 << w) - 1) ^ host))
+    if style == 2 and 0 < o[3] < w:
+        return '%s/%s' % (_astr(o[1], o[2]), _astr(o[1], host))
     return '%s/%d' % (_astr(o[1], o[2]), o[3])
+
+
+def _style(x):
+    """deterministic spelling choice for raw string operands (from the integers of the operand)"""
+    return (x[2] + x[-1]) % 3 if x[0] == 'N' else 0
+
+
+def _raw_operand(x, form):
+    """what the caller passes for a raw form"""
+    if form == 'rint':
+        return x[2]
+    return _xstr(x, _style(x))
+
+
+def _raw_tok(x, form):
+    if form == 'rint':
+        return 'I:%d' % x[2]
+    if form in ('rstr', 'rcidr'):
+        return 'S:' + _xstr(x, _style(x)).encode('utf-8').hex()
+    return _tok(x)
 
 
 # ------------------------------------------------------------------ cases
 
 def _contains_case(mode, y, x, form):
+    if form in ('rstr', 'rint', 'rcidr'):
+        yt = _tok(y)
+        return Case('contains_raw %s %s' % (yt, _raw_tok(x, form)), 'contains_raw/%s-in-%s/%s' % (x[0], y[0], form),
+                    ('contains', mode, y, x, form))
     # what the code converts a string operand to: IPNetwork(s) for a network container,
     # IPAddress(s) for a range/glob container
     if form == 'str':
@@ -113,7 +151,20 @@ def _contains_case(mode, y, x, form):
     return Case(line, tag, ('contains', mode, y, x, form))
 
 
-def _match_case(which, ver, ipv, ipform, cands):
+def _cand_tok(c):
+    ver, v, p, form = c
+    if form == 'net':
+        return 'N:%d:%d:%d' % (ver, v, p)
+    if form == 'addr':
+        return 'A:%d:%d' % (ver, v)
+    return 'S:' + _cand_obj(c).encode('utf-8').hex()
+
+
+def _match_case(which, ver, ipv, ipform, cands, raw=False):
+    if raw:
+        ip = 'A:%d:%d' % (ver, ipv) if ipform == 'obj' else 'S:' + _astr(ver, ipv).encode('utf-8').hex()
+        return Case('match_raw %s %s %s' % (which, ip, plist(_cand_tok(c) for c in cands)), 'match_raw/%s' % which,
+                    ('match', which, ver, ipv, ipform, tuple(cands)))
     line = 'match_%s A:%d:%d %s' % (which, ver, ipv, plist('N:%d:%d:%d' % (c[0], c[1], c[2]) for c in cands))
     return Case(line, 'match/%s' % which, ('match', which, ver, ipv, ipform, tuple(cands)))
 
@@ -139,6 +190,16 @@ def corpus():
     out.append(_contains_case('own', ('N', 4, a, 24), ('G', 4, a, a + 255, '10.0.0.*'), 'obj'))
     out.append(_contains_case('own', ('N', 4, a, 24), ('N', 4, a + 5, 24), 'str'))
     out.append(_contains_case('own', ('R', 4, a, a + 5), ('A', 4, a + 5), 'str'))
+    # the same with the model doing IPNetwork(other) / IPAddress(other); ints; CIDR text against a range
+    out.append(_contains_case('own', ('N', 4, a, 24), ('N', 4, a + 5, 24), 'rstr'))
+    out.append(_contains_case('own', ('N', 4, a, 24), ('N', 4, a + 6, 25), 'rstr'))
+    out.append(_contains_case('own', ('N', 4, a, 24), ('N', 4, a + 7, 25), 'rstr'))
+    out.append(_contains_case('own', ('N', 4, a, 24), ('A', 4, a + 5), 'rstr'))
+    out.append(_contains_case('own', ('R', 4, a, a + 5), ('A', 4, a + 5), 'rstr'))
+    out.append(_contains_case('own', ('R', 4, a, a + 5), ('A', 4, a + 5), 'rint'))
+    out.append(_contains_case('own', ('R', 6, 1 << 32, (1 << 32) + 5), ('A', 6, 1 << 32), 'rint'))
+    out.append(_contains_case('own', ('N', 4, a, 24), ('A', 4, a + 5), 'rint'))
+    out.append(_contains_case('own', ('R', 4, a, a + 5), ('N', 4, a + 4, 31), 'rcidr'))
     # matching: nested chain with a non-matching sibling between matches
     cands = [(4, a, 8, 'net'), (4, a, 24, 'net'), (4, a + 256, 24, 'net'), (4, a + 1, 32, 'addr'), (4, a, 16, 'str'),
              (6, a, 100, 'net')]
@@ -147,6 +208,8 @@ def corpus():
         out.append(_match_case(which, 4, a + 300, 'str', cands))
         out.append(_match_case(which, 4, 5, 'obj', cands))
         out.append(_match_case(which, 4, 5, 'obj', []))
+        out.append(_match_case(which, 4, a + 1, 'obj', cands, raw=True))
+        out.append(_match_case(which, 4, a + 300, 'str', cands, raw=True))
     return out
 
 
@@ -260,7 +323,13 @@ def generate(rng, tier):
         if mode == 'own' and x[0] in 'AN' and rng.random() < 0.3:
             # address strings for any container, CIDR strings for network containers
             if x[0] == 'A' or y[0] == 'N':
-                form = 'str'
+                form = 'str' if rng.random() < 0.6 else 'rstr'
+            elif rng.random() < 0.15:
+                form = 'rcidr'                      # CIDR text against a range / glob container
+        elif mode == 'own' and x[0] == 'A' and rng.random() < 0.04:
+            # a bare int: its family is read off its magnitude (IPAddress(int)) for a range container
+            if not (x[1] == 6 and x[2] < (1 << 32)):
+                form = 'rint'
         cases.append(_contains_case(mode, y, x, form))
     for _ in range(1500 * mult):
         ver = rng.choice((4, 6))
@@ -270,8 +339,9 @@ def generate(rng, tier):
         ipv = min(m, max(0, hot + rng.choice([0, 1, -1, 5])))
         cands = _rand_cands(rng, ver, ipv)
         ipform = rng.choice(['obj', 'obj', 'str'])
+        raw = rng.random() < 0.3
         for which in ('all', 'small', 'large'):
-            cases.append(_match_case(which, ver, ipv, ipform, cands))
+            cases.append(_match_case(which, ver, ipv, ipform, cands, raw))
     return cases
 
 
@@ -298,7 +368,7 @@ def impl(c):
         if a[0] == 'contains':
             _, mode, y, x, form = a
             yo = _mk(y)
-            xo = _xstr(x) if form == 'str' else _mk(x)
+            xo = _xstr(x) if form == 'str' else (_raw_operand(x, form) if form in ('rstr', 'rint', 'rcidr') else _mk(x))
             if mode == 'own':
                 r = xo in yo
             else:
@@ -333,6 +403,10 @@ def oracle(c, got):
         yv, yf, yl = _span(y)
         xv, xf, xl = _span(x)
         exp = tf(xv == yv and yf <= xf and xl <= yl)
+        if form in ('rint', 'rcidr') and got.startswith('!'):
+            # outside the property's operand list (a bare int, a CIDR string against a range): refusing is allowed,
+            # the correspondence with the model fixes what exactly happens
+            return None
         if got != exp:
             return 'x in y gave %s; interval inclusion (ver %d [%d,%d] in ver %d [%d,%d]) is %s' % (
                 got, xv, xf, xl, yv, yf, yl, exp)
@@ -400,7 +474,7 @@ def repro(c):
             if o[0] == 'R':
                 return 'IPRange(IPAddress(%d, %d), IPAddress(%d, %d))' % (o[2], o[1], o[3], o[1])
             return 'IPGlob(%r)' % o[4]
-        xs = repr(_xstr(x)) if form == 'str' else src(x)
+        xs = repr(_xstr(x)) if form == 'str' else (repr(_raw_operand(x, form)) if form in ('rstr', 'rint', 'rcidr') else src(x))
         if mode == 'own':
             return '%s in %s' % (xs, src(y))
         return 'netaddr.ip.IPListMixin.__contains__(%s, %s)' % (src(y), xs)
